@@ -8,6 +8,7 @@
      [k |-> "seq", names]      exactly these question names, in this order (resolv.conf(5) search order)
      [k |-> "first", names]    the first question is names[1]; later ones are any of `names`
                                (with mayfail: the request may also fail without transmitting anything)
+     [k |-> "set", names]      every question is one of `names`, in any order
    The bytes actually captured are judged by DnsMsg!QueryOK in DnsMsgV (binding V). *)
 EXTENDS DnsMsg
 
@@ -56,7 +57,7 @@ QueryFor(nm, search, ndots, flags) ==
   IN IF ~Encodable(raw) /\ raw # <<>> THEN [k |-> "fail", names |-> <<>>]
      ELSE IF raw = <<>> THEN [k |-> "first", names |-> <<raw>>]            \* the root: undocumented, only well-formedness is demanded
      ELSE IF flags = NO_SEARCH \/ search = <<>> THEN [k |-> "seq", names |-> <<raw>>]
-     ELSE IF nm.trail THEN [k |-> "first", names |-> <<raw>> \o usable]      \* absolute name: searching it is not documented either way
+     ELSE IF nm.trail THEN [k |-> "set", names |-> <<raw>> \o usable]        \* absolute name: whether / when it is searched is not documented
      ELSE IF usable # cands THEN [k |-> "first", mayfail |-> TRUE,      \* a search candidate does not fit: failing the request is admissible
                                   names |-> (IF Dots(nm) >= ndots THEN <<raw>> ELSE <<>>) \o usable \o <<raw>>]
      ELSE IF Dots(nm) >= ndots THEN [k |-> "seq", names |-> <<raw>> \o cands]
